@@ -33,6 +33,10 @@ func oracleC14(w *World, op *Op) {
 			s.Probe("c14.fault-gave-error")
 			return
 		}
+		if w.x.touchesForeign(op) {
+			s.Probe("c14.unknown-hash-gave-error")
+			return
+		}
 		if !w.expect(op).faulty {
 			s.Violate("clean-read-failed", op.Kind, "op%03d %s?%s answered %d with healthy backend, store and cache: %s", op.ID, op.Kind, op.Query, op.Status, firstLine(op.RespBody))
 		}
@@ -54,6 +58,10 @@ func oracleC14(w *World, op *Op) {
 		return
 	}
 	st := w.be.Log.Seq[op.A]
+	if v := w.x.foreignAt(op.A); v != "" {
+		s.Violate("unknown-hash-served", v, "op%03d get-entry-and-proof(%d,%d): the leaf refers to its issuance chain by a hash the store does not hold (%s), yet it was served with %d bytes of extra_data", op.ID, op.A, op.B, v, len(j.ExtraData))
+		return
+	}
 	if !bytes.Equal(j.LeafInput, st.Value) || !w.x.extraOK(st, j.ExtraData) {
 		s.Violate("entries-bytes", "get-entry-and-proof", "op%03d get-entry-and-proof(%d,%d): extra_data / leaf_input differ from what the default mode serves for index %d (store/cache decisions for this request: %v)", op.ID, op.A, op.B, op.A, op.StoreOps)
 		return
@@ -75,6 +83,10 @@ func finalC14(w *World) {
 		op := w.auditGet("get-entries", "/ct/v1/get-entries", q("start", i64(i), "end", i64(i)), i, i, nil)
 		if s.Violated() {
 			return
+		}
+		if op.Status != 200 && w.x.foreignAt(i) != "" {
+			s.Probe("c14.unknown-hash-gave-error")
+			continue
 		}
 		if op.Status != 200 {
 			s.Violate("liveness", "get-entries", "external mode: get-entries(%d,%d) answered %d with everything healthy: %s", i, i, op.Status, firstLine(op.RespBody))
